@@ -86,6 +86,7 @@ type Opt struct {
 	Priorities       []int
 	ReadTimeout      time.Duration
 	Types            []string
+	Names            []string // endpoint names (default b0, b1, ...); need not be unique
 	Spec             func(*world.Spec)
 }
 
@@ -107,6 +108,9 @@ func New(o Opt) (*FW, error) {
 		typ := "ollama"
 		if o.Types != nil {
 			typ = o.Types[i]
+		}
+		if o.Names != nil {
+			name = o.Names[i]
 		}
 		eps = append(eps, world.Endpoint{Name: name, URL: s.URL(), Type: typ, Priority: p, CheckInterval: 5 * time.Second, CheckTimeout: 3 * time.Second})
 	}
